@@ -506,7 +506,7 @@ pub fn gen_package(d: &mut Draw, nm: &mut Names, view: &View) -> Decl {
 pub fn gen_pkg_member(d: &mut Draw, nm: &mut Names, view: &View, pkg: &str, sofar: &[Ent], k: usize) -> Ent {
     let local_consts: Vec<&str> = sofar.iter().filter(|e| e.kind == Kind::Const).map(|e| e.name.as_str()).collect();
     // a width usable inside this package
-    let mut width = |d: &mut Draw| -> String {
+    let width = |d: &mut Draw| -> String {
         let mut opts = vec!["8".to_string(), "3".to_string()];
         for c in &local_consts {
             opts.push((*c).to_string());
